@@ -193,6 +193,32 @@ def constructed_variants(fn, enum_variants):
     return out
 
 
+def rule_init_order(ctx, R):
+    """The declarations collected while desugaring are put in front of the template body.  The generated loop counters
+    (`anon_var_..`, declared and set to 0 there) occur as dimensions of the generated component arrays, so their
+    initialisation must come before the component declarations - otherwise the declaration reads an unassigned
+    variable, SSA conversion fails and the whole template is dropped with an error."""
+    fn = find_fn(SSR, "remove_syntactic_sugar")
+    if fn is None:
+        return ctx.missing(R, "remove_syntactic_sugar")
+    sep = [n for n in walk(fn["body"]) if n["k"] == "Local" and n.get("init") is not None and any(c["k"] == "Call" and c["func"]["k"] == "Path" and last(c["func"]["path"]) == "separate_declarations_in_comp_var_subs" for c in walk(n["init"]))]
+    if len(sep) != 1 or sep[0]["pat"]["k"] != "PTuple" or len(sep[0]["pat"]["elems"]) != 3:
+        return ctx.missing(R, "remove_syntactic_sugar/separated-declarations")
+    names = [render(x).replace("mut ", "").strip() for x in sep[0]["pat"]["elems"]]
+    comp, _vars, subs = names
+    # position (in source order) at which each part enters the block that is put in front of the body
+    def first_use(nm):
+        best = None
+        for n in walk(fn["body"]):
+            if n["k"] == "Path" and n["path"] == nm and n is not None:
+                ln = n.get("line", 0)
+                if ln and (best is None or ln < best) and ln > sep[0].get("line", 0):
+                    best = ln
+        return best
+    lc, ls = first_use(comp), first_use(subs)
+    ctx.check(R, "remove_syntactic_sugar/counters-initialised-before-component-declarations", lc is not None and ls is not None and ls < lc, "the substitutions (counter initialisations) enter the initial block at line %s, the component declarations at line %s" % (ls, lc), site(SSR, sep[0]))
+
+
 def rule_always_desugared(ctx, R):
     """whatever was parsed is desugared before it is handed on: the call is not under any condition on the program"""
     LIBF = "parser/src/lib.rs"
@@ -211,6 +237,7 @@ def rule_elimination(ctx):
     R = "C18.2"
     ctx.rule(R, "the node kinds the IR lifting panics on and the CFG lifting does not handle itself are unconstructible in the output of the template pipeline (last remover stage) and rejected by the function filter; the anonymous-component remover runs before the tuple remover; every parsed program and library is desugared")
     rule_always_desugared(ctx, R)
+    rule_init_order(ctx, R)
     ps = panicking_variants(IRL, r"ast::Statement")
     pe = panicking_variants(IRL, r"ast::Expression")
     ctx.table("lifting panics on", {"statements": sorted(ps), "expressions": sorted(pe)})
